@@ -1,7 +1,8 @@
 (* C09/Property.v — property theorems only. *)
 From Coq Require Import String List Bool ZArith.
 From Verif Require Import Base.Str C09.Model C09.Spec C09.Proofs.
-From VerifGen Require Import C09Tables.
+From Verif Require Import Base.Py Base.Py2 C09.Source2 C09.Source2g.
+From VerifGen Require Import C09Tables C09Src2 C09Src2g.
 Import ListNotations.
 Open Scope string_scope.
 
@@ -100,3 +101,189 @@ Theorem c09_defaults :
   /\ lifetime_default = ONE_HOUR /\ nameid_format_default = TRANSIENT /\ SCM_BEARER = BEARER.
 Proof. exact table_defaults. Qed.
 Print Assumptions c09_defaults.
+
+(* ---------------------------------------------------------------------------------------------------------
+   tie to the source TEXT, translator v2: nine functions of the anchored code as translated from /repo's current
+   source on this run (coq/gen/C09Src2.v, harness/py2coq2.py) compute the model's functions, for ALL inputs of
+   the model's domain.  External calls are universally quantified functions; what is assumed about them are the
+   premises below (each set is shown satisfiable in C09/Source2.v). *)
+
+(* assertion.py Policy.get: the most specific section (requester > registration authority > "default" or "")
+   answers as a whole, a missing / None attribute falls back to the default *)
+Theorem c09_source2_policy_get :
+  forall (registration_info : pyval -> pyval -> pyval) (mds : pyval) (ra_of : string -> option string),
+  is_object mds = true ->
+  (forall sp, registration_info mds (PStr sp) = enc_ra (ra_of sp)) ->
+  forall pol att sp dflt,
+  keys_ok pol = true -> is_bad dflt = false ->
+  src2_policy_get registration_info (enc_policy mds pol) (PStr att) (PStr sp) dflt
+  = policy_get pol (sec_get att) sp (ra_of sp) dflt.
+Proof. exact src2_policy_get_is_model. Qed.
+Print Assumptions c09_source2_policy_get.
+
+Theorem c09_source2_get_nameid_format :
+  forall (registration_info : pyval -> pyval -> pyval) (mds : pyval) (ra_of : string -> option string),
+  is_object mds = true ->
+  (forall sp, registration_info mds (PStr sp) = enc_ra (ra_of sp)) ->
+  forall pol sp,
+  keys_ok pol = true ->
+  src2_get_nameid_format registration_info (enc_policy mds pol) (PStr sp)
+  = PStr (get_nameid_format pol sp (ra_of sp)).
+Proof. exact src2_get_nameid_format_is_model. Qed.
+Print Assumptions c09_source2_get_nameid_format.
+
+Theorem c09_source2_get_lifetime :
+  forall (registration_info : pyval -> pyval -> pyval) (mds : pyval) (ra_of : string -> option string),
+  is_object mds = true ->
+  (forall sp, registration_info mds (PStr sp) = enc_ra (ra_of sp)) ->
+  forall pol sp,
+  keys_ok pol = true ->
+  src2_get_lifetime registration_info (enc_policy mds pol) (PStr sp)
+  = enc_lifetime (get_lifetime pol sp (ra_of sp)).
+Proof. exact src2_get_lifetime_is_model. Qed.
+Print Assumptions c09_source2_get_lifetime.
+
+(* assertion.py Policy.conditions: NotBefore = now, NotOnOrAfter = Policy.not_on_or_after(requester), exactly the
+   audience restrictions of the model's issued record (one, naming the requester) *)
+Theorem c09_source2_conditions :
+  forall (factory : pyval -> list (string * pyval) -> pyval) (instant : pyval) (not_on_or_after : pyval -> pyval -> pyval),
+  (forall c kw, is_bad (factory c kw) = false) ->
+  is_bad instant = false ->
+  (forall s e, is_bad (not_on_or_after s e) = false) ->
+  forall x r self,
+  create x = Issued r ->
+  src2_conditions factory instant not_on_or_after self (PStr (a_sp (arg x)))
+  = enc_conditions factory (i_audiences r) instant (not_on_or_after self (PStr (a_sp (arg x)))).
+Proof. exact src2_conditions_is_model. Qed.
+Print Assumptions c09_source2_conditions.
+
+(* entity.py Entity._issuer: the issuer argument when truthy, else the configured entity id *)
+Theorem c09_source2_issuer :
+  forall (mk_issuer : list (string * pyval) -> pyval) x,
+  src2_issuer mk_issuer (enc_entity (c_entityid (cfg x))) (enc_ostr (a_issuer (arg x)))
+  = mk_issuer [("format", PStr "urn:oasis:names:tc:SAML:2.0:nameid-format:entity"); ("text", PStr (issuer_of x))].
+Proof. exact src2_issuer_is_model. Qed.
+Print Assumptions c09_source2_issuer.
+
+(* entity.py Entity.sign (as Entity._response calls it when the Response is to be signed): refusal exactly when
+   the model refuses (algorithm outside the allowed lists), else the signer gets the Response with a template
+   for the model's algorithms and the parts handed in plus the Response *)
+Theorem c09_source2_sign :
+  forall (pre_signature_part : pyval -> pyval -> pyval -> pyval -> pyval -> pyval) (class_name : pyval -> pyval)
+         (signed_instance_factory : pyval -> pyval -> pyval -> pyval) (cert : pyval),
+  (forall a b c d e, is_bad (pre_signature_part a b c d e) = false) ->
+  (forall m, is_bad (class_name m) = false) ->
+  is_bad cert = false ->
+  forall x rid ts,
+  want_sign_response x = true ->
+  src2_sign pre_signature_part class_name signed_instance_factory
+    (enc_signer cert (cfg x)) (enc_msg rid PNone) PNone (PList ts) PNone
+    (enc_ostr (a_sign_alg (arg x))) (enc_ostr (a_digest_alg (arg x)))
+  = match signatures x with
+    | Some (Some algs, _) => signed_response pre_signature_part class_name signed_instance_factory cert rid ts algs
+    | Some (None, _) => PErr
+    | None => PExc "Exception"
+    end.
+Proof. exact src2_sign_is_model. Qed.
+Print Assumptions c09_source2_sign.
+
+(* ident.py IdentDB.nim_args: format and SPNameQualifier of a constructed identifier (the repaired C09-F1 site) *)
+Theorem c09_source2_nim_args :
+  forall (registration_info : pyval -> pyval -> pyval) (mds : pyval) (ra_of : string -> option string),
+  is_object mds = true ->
+  (forall sp, registration_info mds (PStr sp) = enc_ra (ra_of sp)) ->
+  forall x,
+  keys_ok (the_policy x) = true -> ra_of (a_sp (arg x)) = ra x ->
+  src2_nim_args registration_info (enc_identdb (c_entityid (cfg x)) (c_domain (cfg x)))
+    (enc_policy mds (the_policy x)) (PStr (a_sp (arg x))) (enc_nip (a_nidpolicy (arg x))) (PStr "")
+  = PObj [("nformat", PStr (nim_format x)); ("sp_name_qualifier", PStr (snq_of x));
+          ("name_qualifier", PStr (c_entityid (cfg x)))].
+Proof. exact src2_nim_args_is_model. Qed.
+Print Assumptions c09_source2_nim_args.
+
+(* ident.py IdentDB.get_nameid: a stored persistent identifier is handed out again, an e-mail identifier needs a
+   domain (SAMLError), otherwise a fresh identifier of the model's format / qualifiers is built and stored *)
+Theorem c09_source2_get_nameid :
+  forall (match_local_id_ext : pyval -> pyval -> pyval -> pyval -> pyval) (create_id : pyval -> pyval -> pyval -> pyval)
+         (store : pyval -> pyval -> pyval) (mk_nameid : list (string * pyval) -> pyval) (text_of : nat -> string)
+         (fresh_id : string) (x : input) (userid : pyval),
+  is_bad userid = false ->
+  match_local_id_ext (self_db x) userid (PStr (snq_of x)) (PStr (c_entityid (cfg x)))
+    = enc_found text_of (match_local_id (stored x) (snq_of x) (c_entityid (cfg x))) ->
+  (forall a b c, create_id a b c = PStr fresh_id) ->
+  (forall a b, is_bad (store a b) = false) ->
+  (forall kw, is_bad (mk_nameid kw) = false) ->
+  forall nformat,
+  src2_get_nameid match_local_id_ext create_id store mk_nameid (self_db x) userid
+    (PStr nformat) (PStr (snq_of x)) (PStr (c_entityid (cfg x)))
+  = match get_nameid x nformat with
+    | None => PExc "SAMLError"
+    | Some (n, Reused k) => enc_stored text_of k n
+    | Some (n, Fresh) => mk_nameid [("format", enc_ostr (n_format n)); ("name_qualifier", enc_ostr (n_nq n));
+                                    ("sp_name_qualifier", enc_ostr (n_spnq n)); ("text", PStr (fresh_text fresh_id x nformat))]
+    | Some (_, Given) => PErr
+    end.
+Proof. exact src2_get_nameid_is_model. Qed.
+Print Assumptions c09_source2_get_nameid.
+
+(* argtree.py is_set, the test Server.update_farg makes before it fills in Method / InResponseTo / Recipient: on
+   every preset confirmation tree it answers whether the model's field is preset; the model's update_farg is
+   these three tests *)
+Theorem c09_source2_is_set : forall g irt url,
+  src2_is_set (enc_farg g) P_method = PBool (is_some (f_method g))
+  /\ src2_is_set (enc_farg g) P_irt = PBool (is_some (f_irt g))
+  /\ src2_is_set (enc_farg g) P_recipient = PBool (is_some (f_recipient g))
+  /\ update_farg irt url (Some g)
+     = {| f_method := if py_truthy (src2_is_set (enc_farg g) P_method) then f_method g else Some SCM_BEARER;
+          f_irt := if py_truthy (src2_is_set (enc_farg g) P_irt) then f_irt g else irt;
+          f_recipient := if py_truthy (src2_is_set (enc_farg g) P_recipient) then f_recipient g else Some url |}.
+Proof. exact src2_is_set_and_update_farg. Qed.
+Print Assumptions c09_source2_is_set.
+
+(* server.py Server.gather_authn_response_args (two call shapes rewritten by harness/c09.py before translation, see
+   notes/C09.md): on the keyword arguments create_authn_response() hands over, the returned dict holds the model's
+   policy (release_policy argument, else configuration), the signing options resolved argument > configuration >
+   default, and the model's choice of name identifier: the supplied one, else the first stored identifier with the
+   SPNameQualifier and the format in force (the dict handed to the store search is exactly that pair), else the
+   constructed one; SAMLError exactly when the model refuses *)
+Theorem c09_source2_gather_authn_response_args :
+  forall (registration_info : pyval -> pyval -> pyval) (mds : pyval) (ra_of : string -> option string),
+  is_object mds = true ->
+  (forall sp, registration_info mds (PStr sp) = enc_ra (ra_of sp)) ->
+  forall (cfg_getattr : pyval -> pyval -> pyval -> pyval) (enc_cert_ok : pyval -> pyval)
+         (find_nameid_ext : pyval -> pyval -> pyval -> pyval)
+         (construct_nameid_ext : pyval -> pyval -> pyval -> pyval -> pyval -> pyval)
+         (text_of : nat -> string) (more descs : list pyval) (x : input) (uid : string),
+  String.eqb (a_sp (arg x)) "__class__" = false ->
+  forallb desc_ok descs = true ->
+  ra_of (a_sp (arg x)) = ra x ->
+  keys_ok (the_policy x) = true ->
+  (forall n, cfg_getattr cfgobj (PStr n) (PStr "idp") = cfg_val mds x n) ->
+  (forall q f, find_nameid_ext (self_db x) (PStr uid) (kwa_dict q f)
+               = match find_nameid (stored x) q (Some (Some f)) with
+                 | Some (k, n) => PList (enc_nameid (text_of k) n :: more)
+                 | None => PList []
+                 end) ->
+  construct_nameid_ext (self_db x) (PStr uid) (enc_policy mds (the_policy x)) (PStr (a_sp (arg x)))
+    (enc_nip (a_nidpolicy (arg x)))
+  = match get_nameid x (nim_format x) with
+    | Some (n, s) => enc_chosen text_of n s
+    | None => PExc "SAMLError"
+    end ->
+  src2_gather registration_info cfg_getattr enc_cert_ok find_nameid_ext construct_nameid_ext
+    (enc_server descs x) (PStr (a_sp (arg x))) (enc_nip (a_nidpolicy (arg x))) (PStr uid) (enc_kwargs mds x)
+  = match choose_name_id x with
+    | Some (n, s) => args_dict mds x (enc_chosen text_of n s)
+    | None => PExc "SAMLError"
+    end.
+Proof. exact src2_gather_is_model. Qed.
+Print Assumptions c09_source2_gather_authn_response_args.
+
+(* ... where the sign_response / sign_assertion entries of that dict are truthy exactly when the model signs *)
+Theorem c09_source2_gather_signs : forall x,
+  py_truthy (resolved (a_sign_response (arg x)) (load_special (c_sign_response (cfg x))) sign_response_default)
+    = want_sign_response x
+  /\ py_truthy (resolved (a_sign_assertion (arg x)) (load_special (c_sign_assertion (cfg x))) sign_assertion_default)
+    = want_sign_assertion x.
+Proof. exact gather_signs_are_model. Qed.
+Print Assumptions c09_source2_gather_signs.
